@@ -8,6 +8,15 @@ TOKEN_CLAUSES_C10 = ["C10_ToERC20", "C10_FromERC20", "C10_Hook", "C10_SumConst",
                      "C10_NoOverBurn", "C10_Worth", "C10_ExactAtOne", "C10_Dust", "C10_SwapSettle",
                      "C10_ScaleExact", "Rejected_NoEffect"]
 
+# history twins (audit of round 7): the same sentences judged by what HAPPENED - ghosts computed from the accepted
+# messages and their arguments (owner = issuer / receiver of the last accepted hand-over; declared maximum and
+# mintable flag = the accepted Issue's, changed by accepted Edits; tally = sum of the accepted burns; tax rate = the
+# last accepted SetParams; bound contract = the one that appeared in the ERC20 ledger at the accepted Deploy) -
+# instead of by the module's own records as projected in the state, so that a record silently overwritten, an
+# index entry never written or a rewritten tally / binding cannot make a clause vacuous or wrong on both sides
+TOKEN_CLAUSES_C09 += ["C09_IssueFresh", "C09_AuthorityH", "C09_CapH", "C09_BurnedH", "C09_FeeH"]
+TOKEN_CLAUSES_C10 += ["C10_ToERC20H", "C10_FromERC20H", "C10_SumConstH"]
+
 # driver configurations: the chain the harness builds must be the model's Init
 BASE = "minunits=maa:mbb,basefee=5,taxnum=2,taxden=5,mintnum=1,mintden=2"
 C09_MC_CFG = "users=3,stake=7," + BASE                       # MC_Token.cfg, MC_TokenId.cfg
